@@ -628,6 +628,35 @@ def check_rebuild(ctx, rule, ci, fn, mode):
                     if k.arg:
                         pairs.append(([k.arg], k.value))
                 good = True
+                # configuration that the constructor stores but the reconstruction does not pass falls back to its default
+                passed = set(supplied)
+                for params, _a in pairs:
+                    passed |= set(params)
+                star_kw = any(k.arg is None for k in call.keywords)
+                if not star_kw:
+                    defaults_from = len(init.args.args) - len(init.args.defaults)
+                    with_default = [(prm.arg, init.args.defaults[idx_ - defaults_from]) for idx_, prm in enumerate(init.args.args[1:], start=1) if idx_ >= defaults_from]
+                    with_default += [(prm.arg, d_) for prm, d_ in zip(init.args.kwonlyargs, init.args.kw_defaults) if d_ is not None]
+                    for pn, dflt in with_default:
+                        if pn in passed or pn in passthru:
+                            continue
+                        stored = {f for f in dmap.get(pn, set()) if not f.startswith("__")}
+                        if not stored:
+                            continue
+                        # only configuration that decides the VALUE the object samples to (fields its sampleGiven reads);
+                        # hints such as a value type or a support bound may legitimately be dropped
+                        sg = model.find_method(tc, "sampleGiven")
+                        read = {a.attr for a in ast.walk(sg[1]) if isinstance(a, ast.Attribute) and isinstance(a.value, ast.Name) and a.value.id == "self"} if sg else set()
+                        if not (stored & read):
+                            continue
+                        good = False
+                        ctx.finding(
+                            rule,
+                            call,
+                            f"{ci.name}.{fn.name} omits {pn} of {tc.name}",
+                            f"{ci.name}.{fn.name} rebuilds `{tc.name}` with `{norm_text(call, 90)}` but does not pass `{pn}`, which the constructor keeps in {sorted('self.' + f for f in stored)}: "
+                            f"the rebuilt object silently falls back to the default `{unparse(dflt)}` (e.g. a list literal comes back as a tuple)",
+                        )
                 for params, a in pairs:
                     ra = resolve_expr(a, env)
                     allowed = set()
